@@ -101,6 +101,15 @@ def strip : Option Active → Option Active
   | some (.cancelInFlight (some o)) => some (.opn o)
   | _ => none
 
+/-- order snapshots an exchange produces for the replica hypothesis: open or inactive only -/
+def Op.exchangeReport : Op → Bool
+  | .snapshot s => match s.state with
+    | .active (.opn _) => true
+    | .inactive _ => true
+    | _ => false
+  | .cancelResp _ _ => true
+  | _ => false
+
 /-- the state an event's updates are applied to before any request is generated -/
 def preState (e : Eng) : Event → Eng
   | .update u => applyUpdate e u
